@@ -107,6 +107,38 @@ def oracle_smoothmag(ck, mask, zero=False):
     return None
 
 
+def oracle_f32_grad(ck, order, biort, qshift, b, x, what):
+    """single precision (the default dtype of the library): the gradient of a float32 layer is finite and is the gradient of
+    the same layer in double precision up to float32 rounding - every positive bias, also tiny ones, on the all-zero image and on
+    images with an identically zero background (band-pass coefficients exactly 0)"""
+    from pytorch_wavelets import ScatLayer, ScatLayerj2
+    desc = 'float32 gradient of ScatLayer%s biort=%s magbias=%g shape=%s (%s)' % ('j2' if order == 2 else '', biort, b, tuple(x.shape), what)
+    replay = {'oracle': 'f32_grad', 'order': order, 'biort': biort, 'qshift': qshift, 'b': b, 'x': arr_json(x), 'what': what}
+    old = torch.get_default_dtype()
+    try:
+        torch.set_default_dtype(torch.float32)
+        try:
+            mod32 = ScatLayer(biort=biort, magbias=b) if order == 1 else ScatLayerj2(biort=biort, qshift=qshift, magbias=b)
+        finally:
+            torch.set_default_dtype(old)
+        mod64 = (ScatLayer(biort=biort, magbias=b) if order == 1 else ScatLayerj2(biort=biort, qshift=qshift, magbias=b)).double()
+        x32 = torch.tensor(x, dtype=torch.float32).requires_grad_(True); x64 = torch.tensor(x, dtype=torch.float64).requires_grad_(True)
+        z32 = mod32(x32); z64 = mod64(x64)
+        g = ck.nprng.standard_normal(tuple(z64.shape))
+        (g32,) = torch.autograd.grad([z32], x32, [torch.tensor(g, dtype=torch.float32)])
+        (g64,) = torch.autograd.grad([z64], x64, [torch.tensor(g, dtype=torch.float64)])
+    except Exception as e:
+        ck.fail(desc + ': raises %s: %s' % (type(e).__name__, str(e)[:100]), replay); return 'raise'
+    if not torch.isfinite(g32).all():
+        ck.fail(desc + ': the float32 gradient is not finite (%d non-finite entries; the float64 gradient is finite: %s)' % (int((~torch.isfinite(g32)).sum()), bool(torch.isfinite(g64).all())), replay)
+        return 'nonfinite'
+    err = float((g32.double() - g64).abs().max()); sc_ = max(1.0, float(g64.abs().max()))
+    if err > 2e-4 * sc_:
+        ck.fail(desc + ': float32 gradient differs from the float64 gradient by %.3g (scale %.3g)' % (err, sc_), replay); return 'diff'
+    ck.oracle_ok(('f32', order, biort, b, what), group='float32-gradient', sample={'what': desc, 'err': err})
+    return None
+
+
 def corr_cases(ck, n):
     rng = ck.rng; npr = ck.nprng
     for it in range(n):
@@ -144,6 +176,14 @@ def oracle(ck, extended):
     for (biort_, qshift_) in FAMS:
         for mode_ in ('zero', 'symmetric'):
             rt.guard(ck, oracle_layer_grad, ck, 1, biort_, qshift_, 0.1, 0, npr.standard_normal((1, 1, 12, 10)), False, mode_)
+    # single precision, the whole range of positive biases, inputs whose band-pass coefficients are exactly zero
+    blob = np.zeros((1, 1, 16, 16)); blob[0, 0, 6:9, 5:8] = npr.standard_normal((3, 3))
+    for kb, b_ in enumerate([1e-2, 1e-3, 1e-4, 2e-4, 5e-5, 1e-5, 0.1, 1.0] if not q else [1e-2, 1e-4, 5e-5, 1e-5, 0.1]):
+        biort_, qshift_ = FAMS[kb % len(FAMS)]
+        for order_ in (1, 2):
+            rt.guard(ck, oracle_f32_grad, ck, order_, biort_, qshift_, b_, np.zeros((1, 1, 16, 16)), 'all-zero image')
+            rt.guard(ck, oracle_f32_grad, ck, order_, biort_, qshift_, b_, blob, 'zero background')
+        rt.guard(ck, oracle_f32_grad, ck, 1 + kb % 2, biort_, qshift_, b_, npr.standard_normal((1, 2, 16, 8)), 'random image')
     n = (12 if q else 100) * (2 if extended else 1)
     for it in range(n):
         biort, qshift = rng.choice(FAMS)
